@@ -25,6 +25,7 @@ inline Val binop(State &S, unsigned opc, Val a, Val b, int &needConcr) {
     // pointer arithmetic on ptrtoint'ed values: ptr +/- int
     if (a.k == Val::PTR && b.k == Val::INT && (opc == Instruction::Add || opc == Instruction::Sub)) {
       Val r = a;
+      r.kb = KnownBits(64);
       ConstantRange br = b.r.sextOrTrunc(64);
       r.r = opc == Instruction::Add ? a.r.add(br) : a.r.sub(br);
       r.root = -1;
@@ -45,6 +46,7 @@ inline Val binop(State &S, unsigned opc, Val a, Val b, int &needConcr) {
     if (a.k == Val::PTR && b.k == Val::INT && opc == Instruction::And) {
       // alignment masks: (p + a-1) & ~(a-1): keep region, offset range widened downward
       Val r = a;
+      r.kb = KnownBits(64);
       if (b.isConst()) {
         APInt m = b.constVal().sextOrTrunc(64);
         unsigned tz = (~m).countTrailingOnes();
